@@ -195,6 +195,23 @@ impl<U: CoordFloat> AffineTransform<U> {
             assert forall|a: int, b: int| #[trigger] (a * b) == b * a by { assert(a * b == b * a) by (nonlinear_arith); }
         }
 //@end
+//@fn geo/src/algorithm/affine_ops.rs | impl<U: CoordFloat> AffineTransform<U> | skew | id=C13.V.skew
+//@ret r
+//@spec
+    ensures
+        wf(r),
+        // shear-shaped matrix [[1, tx], [ty, 1]] for WHATEVER values tan returned (also after the zero threshold),
+        // with the origin as a fixed point
+        mview(r).a == 1 && mview(r).e == 1,
+        exists|o: Coord<U>| #[trigger] call_ensures(core::convert::Into::<Coord<U>>::into, (origin,), o) && m_apply(mview(r), cv(o)) == cv(o),
+//@entry
+        proof {
+            U::ax_obeys(); U::ax_order(); U::ax_ring(); U::ax_neg();
+            assert forall|a: int, b: int| #[trigger] ((-a) * b) == -(a * b) by { assert((-a) * b == -(a * b)) by (nonlinear_arith); }
+            assert forall|a: int, b: int| #[trigger] (a * b) == b * a by { assert(a * b == b * a) by (nonlinear_arith); }
+            assert forall|a: int| #[trigger] (1 * a) == a by { assert(1 * a == a) by (nonlinear_arith); }
+        }
+//@end
 }
 
 } // verus!
